@@ -578,7 +578,9 @@ def cycle(ctx, dat, case, exp, tag, cfg, aut, lab='real'):
             os.remove(f)
     kw = {}
     if aut and cfg['extra_precision']:
-        kw = {'extra_precision': cfg['extra_precision'], 'echo_extra_precision': cfg['echo']}
+        kw = {'extra_precision': True if cfg.get('extra_precision_as_true') else cfg['extra_precision'], 'echo_extra_precision': cfg['echo']}
+        if cfg.get('extra_precision_as_true'):
+            ctx.count('extra_precision_requested_with_true')
     with ctx.guard(case, where='write:' + lab) as g:
         dat.write(bases[0] + '.dat', meshfilename=meshname(bases[0], cfg), **kw)
         sections0 = list(dat._sections)
@@ -894,8 +896,19 @@ def emit_fortran(c, rng, style=None, split_mesh=False):
     if c['diffusion']:
         S['DIFFU'] = ['DIFFU'] + [rec(T, 'diffusion', r, st) for r in c['diffusion']]
     L = ['ELEME']
-    for b in c['blocks']:
-        L.append(rec(T, 'blocks', [nm(b['name']), b['nseq'], b['nadd'], b['rock'], b['volume'], b['ahtx'], b['pmx']] + (b['centre'] or []), st))
+    # the material field of a block record as TOUGH2 input may spell it: the rock name, the rock's number in ROCKS
+    # (an integer in the last columns), or nothing at all for the first rock
+    rocknames = [rk['name'] for rk in c['rocks']]
+    spell = rng.choice(['name', 'name', 'number', 'blank-for-first', 'mixed'])
+    for k, b in enumerate(c['blocks']):
+        field = b['rock']
+        how = spell if spell != 'mixed' else ['name', 'number', 'blank-for-first'][k % 3]
+        if b['rock'] in rocknames and not any(r.strip().isdigit() for r in rocknames):
+            if how == 'number':
+                field = '%5d' % (rocknames.index(b['rock']) + 1)
+            elif how == 'blank-for-first' and rocknames.index(b['rock']) == 0:
+                field = '     '
+        L.append(rec(T, 'blocks', [nm(b['name']), b['nseq'], b['nadd'], field, b['volume'], b['ahtx'], b['pmx']] + (b['centre'] or []), st))
     L.append('')
     S['ELEME'] = L
     L = ['CONNE']
